@@ -34,7 +34,7 @@ SHARDS = {"quick": 16, "thorough": 16}
 TIMEOUT = {"quick": 900, "thorough": 7200}
 MIN_CASES = {"quick": 3000, "thorough": 25000}
 REQUIRED_COUNTERS = ["ip_encrypts_logged", "ip_accepts_logged", "ip_rejects_logged", "ble_encrypts_logged", "ble_accepts_logged", "ble_rejects_logged",
-                     "coap_encrypts_logged", "coap_accepts_logged", "coap_rejects_logged", "coap_event_accepts_logged", "sessions_rekeyed", "ble_cancel_sweep_points", "coap_requests_cancelled_in_flight", "coap_concurrent_request_pairs"]
+                     "coap_encrypts_logged", "coap_accepts_logged", "coap_rejects_logged", "coap_event_accepts_logged", "sessions_rekeyed", "ble_cancel_sweep_points", "coap_requests_cancelled_in_flight", "coap_concurrent_request_pairs", "ble_multi_fragment_requests"]
 
 
 def report(ctx, transport, history, findings, replay, classify=None) -> None:
@@ -176,7 +176,7 @@ async def ip_history(ctx, history: str, key) -> None:
 # BLE
 # ---------------------------------------------------------------------------------------------
 
-BLE_ALPHABET = "rwPUKct"
+BLE_ALPHABET = "rwLPUKct"
 
 
 async def ble_history(ctx, history: str, key, cancel_at=None) -> None:
@@ -218,6 +218,10 @@ async def ble_history(ctx, history: str, key, cancel_at=None) -> None:
     async def op(kind):
         if kind == "w":
             return await w.pairing.put_characteristics([(1, 11, rng.randrange(100))])
+        if kind == "L":
+            # a request that needs several fragments (each fragment is sealed under its own counter value)
+            ctx.count("ble_multi_fragment_requests")
+            return await w.pairing.put_characteristics([(1, 15, "v" * rng.choice([300, 400, 700]))])
         return await w.pairing.get_characteristics([(1, rng.choice([11, 14]))])
 
     try:
@@ -232,7 +236,7 @@ async def ble_history(ctx, history: str, key, cancel_at=None) -> None:
             if a in "PUK":
                 pending_fault = a
                 continue
-            if a in "rw":
+            if a in "rwL":
                 if pending_fault:
                     arm(pending_fault)
                     pending_fault = None
@@ -528,6 +532,9 @@ async def coap_history(ctx, history: str, key) -> None:
                 gen = st["genuine"] if ev["key"] == "recv" else st["egenuine"]
                 idx = gen.get(ev["ct"])
                 seen = acc_seen[ev["key"]]
+                if ev["key"] == "event" and idx is not None and ev["ct"] not in seen and idx > last["event"] + 1:
+                    # events have no resynchronisation: the k-th event the accessory sealed is accepted k-th or not at all
+                    findings.append({"kind": "event-accepted-ahead-of-an-undelivered-earlier-event", "log_index": i, "index": idx, "after": last["event"], "keyname": "event"})
                 if ev["ct"] in seen:
                     findings.append({"kind": "accepted-twice", "log_index": i, "index": idx, "keyname": ev["key"]})
                 elif idx is not None and idx < last[ev["key"]]:
@@ -605,7 +612,7 @@ def run(ctx) -> None:
             idx += 1
             if ctx.mine(idx):
                 await coap_history(ctx, h, ("directed", h))
-        ctx.exhaustive_parts[f"all histories to depth {d_ip} (IP, 10 actions), {d_ble} (BLE, 7), {d_coap} (CoAP, 15)"] = True
+        ctx.exhaustive_parts[f"all histories to depth {d_ip} (IP, 10 actions), {d_ble} (BLE, 8), {d_coap} (CoAP, 15)"] = True
         # BLE cancellation sweep: cancel at every loop iteration of a request (after 0-2 earlier requests)
         for pre in ("", "r", "wr"):
             for k in range(1, ctx.pick(60, 120)):
@@ -620,7 +627,7 @@ def run(ctx) -> None:
             if t == 0:
                 await ip_history(ctx, "1" + "".join(rng.choice("112233GGGGRFXCTE") for _ in range(n)), ("r", ctx.shard, k))
             elif t == 1:
-                await ble_history(ctx, "".join(rng.choice("rrrwwPUKct") for _ in range(min(n, 16))), ("r", ctx.shard, k))
+                await ble_history(ctx, "".join(rng.choice("rrrwwLPUKct") for _ in range(min(n, 16))), ("r", ctx.shard, k))
             else:
                 await coap_history(ctx, "".join(rng.choice("GGGGGRSFCNXYZPeeegscb") for _ in range(n)), ("r", ctx.shard, k))
 
